@@ -124,6 +124,11 @@ mut("c16-moveless-not-reanchored", "C16", "whole-path reverse no longer gives a 
 '''                if False:
                     p.append(Move(end=subpath[0].start))''')
 
+mut("c16-length-cache-kept", "C16", "a reversal through a subpath view keeps the backing path's cached per-segment lengths (the pinned tree's defect)",
+'''        # The cached lengths of the backing path are in the old order.
+        self._path._length = None
+        self._path._lengths = None''',
+'''        # The cached lengths of the backing path are in the old order.''')
 # ---------------- C17
 mut("c17-quad-copy-control", "C17", "copying a quadratic curve puts the end point where the control belongs (p + 'T..' then reflects the wrong point)",
 '''        return QuadraticBezier(
@@ -196,6 +201,13 @@ mut("c17-add-shape-untransformed", "C17", "path + shape appends the shape's untr
             self.parse(other.d(transformed=False))
         elif isinstance(other, PathSegment):
             self.append(other)''')
+
+mut("c17-append-keeps-length-cache", "C17", "appending a segment no longer drops the cached length (a length measured between two appends survives)",
+'''        self._length = None
+        index = len(self._segments) - 1
+        self._segments.append(value)''',
+'''        index = len(self._segments) - 1
+        self._segments.append(value)''')
 
 # ---------------- C18
 mut("c18-path-init-shares-segments", "C18", "Path(x) takes the source's segment objects (the pinned tree's defect)",
